@@ -179,7 +179,7 @@ fn fake_chronyd(sc: &Scenario, arrivals: Arrivals) -> Result<(), String> {
                 k += 1;
                 let s2 = sock.try_clone().expect("clone");
                 std::thread::spawn(move || {
-                    std::thread::sleep(std::time::Duration::from_millis(d));
+                    crate::common::vclock::real_sleep(std::time::Duration::from_millis(d));
                     let _ = s2.send_to(&reply, addr);
                 });
             }
@@ -208,7 +208,7 @@ fn fake_chronyd(sc: &Scenario, arrivals: Arrivals) -> Result<(), String> {
             let s2 = sock.try_clone().expect("clone");
             std::thread::spawn(move || {
                 if d > 0 {
-                    std::thread::sleep(std::time::Duration::from_millis(d));
+                    crate::common::vclock::real_sleep(std::time::Duration::from_millis(d));
                 }
                 if let Some(p) = path {
                     let _ = s2.send_to(&reply, p);
@@ -286,7 +286,7 @@ pub fn run_scenario(bin: &str, sc: &Scenario) -> Result<Value, String> {
                     }
                 }
             }
-            std::thread::sleep(std::time::Duration::from_millis(3));
+            crate::common::vclock::real_sleep(std::time::Duration::from_millis(3));
         }
         // how the segment looks to somebody else
         use std::os::unix::fs::PermissionsExt;
